@@ -73,6 +73,14 @@ class PROP(Prop):
             for port in (0, 1, 502, 65535, rng.randrange(65536)):
                 for proto in ("tcp", "rtu"):
                     cs.append(Case("ACCADDR %s %s:%d" % (proto, a, port), {"k": "accaddr", "proto": proto}))
+        # every connection gets its own service instance even when other peers reset their connection while it was still queued
+        # in the listen backlog (`k`), were rejected (`r`) or misbehave (`b`)
+        for _ in range(12 if tier == "quick" else 120):
+            evs = [rng.choice(["s", "k", "k", "r", "b"]) for _ in range(rng.randrange(2, 8))] + ["s"]
+            for proto in ("tcp", "rtu"):
+                good = cligen.frame(proto, 1, 1, b"\x11").hex()
+                bad = (b"\x00\x01\x00\x01\x00\x02\x01\x11" if proto == "tcp" else bytes([0x00, 0x80] * 13)).hex()
+                cs.append(Case("ACCEPT %s %s %s %s" % (proto, good, bad, ",".join(evs + ["a"])), {"k": "accept", "proto": proto, "evs": evs}))
         # spread the slow concurrent runs evenly over the shards
         conc = [c for c in cs if c.meta["k"] == "conc"]
         rest = [c for c in cs if c.meta["k"] != "conc"]
@@ -115,6 +123,9 @@ class PROP(Prop):
             return None
         if "PANIC" in r or "CRASH" in r or "NORESULT" in r or r.startswith("ERR"):
             return "failure: %s" % r[:80]
+        if c.meta["k"] == "accept":
+            want = sum(1 for e in c.meta["evs"] if e in ("s", "b", "k"))
+            return None if r.startswith("served=%d " % want) and r.endswith(" ABORTED") else "accept loop: %s; %d connections must each get a service instance (events %s)" % (r[:60], want, ",".join(c.meta["evs"]))
         if c.meta["k"] == "accaddr":
             return None if r.endswith(" n=1 same=1") else "accept_tcp_connection did not create the service with the peer's address exactly once: %s" % r[:80]
         if c.meta["k"] == "srv":
